@@ -26,10 +26,15 @@ class C05(ProgProp):
             out.append(["host:" + h, st.integers(2, 4).flatmap(lambda n, h=h: gp.programs(h, size=n, bulk=False)).map(
                 lambda src, h=h: {"k": "host", "host": h, "src": src}), 2])
         # offset2line(): sorted (offset, line) lists and query offsets; model = linear scan
-        offs = st.lists(st.integers(0, 70000), min_size=0, max_size=12, unique=True).map(sorted)
-        o2l = st.tuples(offs, st.lists(st.integers(0, 100000), min_size=12, max_size=12),
-                        st.lists(st.integers(-5, 70010), min_size=1, max_size=8)).map(
-            lambda p: {"k": "o2l", "starts": [[o, p[1][i]] for i, o in enumerate(p[0])], "queries": p[2]})
+        @st.composite
+        def o2l(draw):
+            offs = sorted(draw(st.lists(st.one_of(st.integers(0, 40), st.integers(0, 70000)), min_size=0, max_size=12, unique=True)))
+            lines = draw(st.lists(st.integers(0, 100000), min_size=len(offs), max_size=len(offs)))
+            # queries: the start offsets themselves, their neighbours, and anything else
+            near = [o + d for o in offs for d in (-1, 0, 0, 1)] or [0]
+            queries = draw(st.lists(st.one_of(st.sampled_from(near), st.integers(-5, 70010)), min_size=1, max_size=8))
+            return {"k": "o2l", "starts": [[o, lines[i]] for i, o in enumerate(offs)], "queries": queries}
+        o2l = o2l()
         out.append(["offset2line", o2l, 6])
         # every opcode table's findlinestarts: grouped by lnotab family, the table drawn inside
         names = self.table_names()
@@ -142,10 +147,24 @@ class C05(ProgProp):
                 where = "before-first" if (not pairs or q < pairs[0][0]) else ("exact" if any(o == q for o, _ in pairs) else (
                     "after-last" if q > pairs[-1][0] else "between"))
                 res.fail("C05|offset2line|%s" % where, "offset2line(%d, %s) = %s, expected %s" % (q, pairs[:8], got, want))
-        res.evals = len(queries)
+        # the same queries answered by xdis running on another Python (the library supports 3.8-3.13 hosts)
+        from vf.pool import HOSTS
+        h = HOSTS[(len(pairs) + sum(q for q in queries if isinstance(q, int))) % len(HOSTS)]
+        r = ctx.pool.host(h).call("x_o2l", starts=starts, queries=queries)
+        for q, got in zip(queries, r["lines"]):
+            want = 0
+            for o, l in pairs:
+                if o <= q:
+                    want = l
+            if got != want:
+                res.fail("C05|offset2line|host-%s" % ("3.8/3.9" if h in ("3.8", "3.9") else "3.10+"), "on a %s host offset2line(%d, %s) = %s, expected %s" % (
+                    h, q, pairs[:8], got, want))
+                break
+        res.classes = []
+        res.evals = 2 * len(queries)
         res.nontrivial = len(pairs) >= 2
         res.key = ["o2l", starts, queries]
-        res.classes = ["source:offset2line", "starts:%d" % min(len(pairs), 5)]
+        res.classes = ["source:offset2line", "starts:%d" % min(len(pairs), 5), "o2l-host:" + h]
         res.sample = {"kind": "offset2line", "starts": starts[:6], "queries": queries[:6]}
         return res
 
